@@ -164,6 +164,13 @@ def classify(diags, lines, fns):
                 k -= 1
             if k > 0:
                 src = lines[k - 1]["src"]
+        if src is None:
+            # primary span on contract text (a labelled clause): any other span of the diagnostic that lies in real code
+            for s2 in spans:
+                m2, _ = meta(s2)
+                if m2 and m2.get("src"):
+                    src = m2["src"]
+                    break
         # a failure whose primary span is a ghost line of a proof hint (assert / lemma call inside `proof { }`), as opposed to a
         # contract clause (labelled or not: requires / ensures / invariant lines) or a line of real code
         kinds = [(meta(s2)[0] or {}).get("kind") for s2 in spans]
@@ -500,8 +507,8 @@ ASSUMPTIONS = [
     "T7 derived Clone/PartialEq/PartialOrd behave structurally",
     "T8 soundness of Verus 0.2026.09.13 + Z3, Kani 0.68 + CBMC 6.11, rustc; usize is 64-bit",
     "T9 file length < 2^62, allocations succeed and never exceed isize::MAX bytes",
-    "Dropped from the verified text: doc comments, #[inline]/#[allow] attributes, Debug/serde derives, Display/Error impls, from_path*, parallel.rs, id_desc() (str::splitn over the unstable Pattern trait)",
-    "Rewrites applied mechanically by the extractor and listed per function: R7 for-in-&mut -> iter_mut, R8 for -> loop+next, R9 byte-string literal -> array, R10 assert! -> if/panic, R11 .all(f) -> its loop, R12 `?` -> match/From, R13 named tail, R14 closure tuple parameter, R15 trait impl -> inherent impl (owned-record iterators), R16 .nth(K) unrolled, R17 loop{if c{break}..} -> while !c {..}; ghost text follows renamed locals (//@local)",
+    "Dropped from the verified text: doc comments, #[inline]/#[allow] attributes, Debug/serde derives, Display/Error impls, from_path*, parallel.rs",
+    "Rewrites applied mechanically by the extractor and listed per function: R7 for-in-&mut -> iter_mut, R8 for -> loop+next, R9 byte-string literal -> array, R10 assert! -> if/panic, R11 .all(f) -> its loop, R12 `?` -> match/From, R13 named tail, R14 closure tuple parameter, R15 trait impl -> inherent impl (owned-record iterators), R16 .nth(K) unrolled, R17 loop{if c{break}..} -> while !c {..}, R18 `if let P(&LIT) = e {a} else {b}` -> `match e { P(x) if *x == LIT => a, _ => b }`, R19 `s.splitn(n, 'c')` on a str -> trusted wrapper vx_str_splitn(s, n, 'c') whose body is that call; ghost text follows renamed locals (//@local)",
 ]
 
 
